@@ -1,6 +1,6 @@
 """C07: Thumb decode -- every 16/32-bit encoding maps to the right instruction class."""
 from symx import stubs
-from vf import runner, step, sweep
+from vf import runner, step, famcheck, sweep
 from vf.runner import UnitSpec
 
 PID = 'C07'
@@ -18,6 +18,18 @@ def units(tier, seed=0):
                            dict(iset='T32', pins=[list(p) for p in pins], tables=T), max_seconds=1800))
     # fetch: whether a halfword starts a 32-bit instruction is decided from its top five bits only (also in C13)
     us.append(UnitSpec('fetch/thumb', 'vf.c13', 'mk_fetch', dict(thumb=True, arch=7)))
+    # operand extraction / UNDEFINED outcomes: every table row of this instruction set through the real
+    # emulate_cycle with the instruction word fully symbolic; quick: a fixed register file of pairwise distinct
+    # values (cheap: no data-dependent paths); thorough: registers symbolic as in the functional checks
+    step.load_tables(T)
+    from spec.isa import ISA
+    rows = [n for n, e in ISA.items() if e.iset in ('T16', 'T32')]
+    fams = set(ISA[n].family for n in rows)
+    if tier == 'quick':
+        light = [n for n in rows if ISA[n].family != 'mul']  # (multiply rows are solver-heavy: thorough tier)
+        us += famcheck.family_units(fams, [7], T, only=light, tag='/operands', reg_values='distinct')
+    else:
+        us += famcheck.family_units(fams, [7], T, only=rows, tag='/operands')
     return us
 
 
@@ -30,6 +42,7 @@ META = {
                    'hw1[15:11] only. Operand extraction incl. ThumbExpandImm is covered by the functional rows '
                    '(C01-C04, C09, C12) and the C17 lemma.',
     'bounds': ['exhaustive over all 16-bit and 32-bit Thumb words within the table coverage'],
+    'bounds_rows': ['quick: operand rows run with a fixed register file of pairwise distinct values (instruction word, flags, IT state, memory symbolic); thorough: registers symbolic'],
     'outside': ['VFP / Advanced SIMD spaces', 'UNPREDICTABLE forms'],
     'stubs': stubs.STUBS_DOC,
     'trusted_base': ['z3', 'symx engine', 'encoding diagrams in spec/isa_*.py'],
